@@ -100,11 +100,15 @@ def run(ctx):
     # ---------------------------------------------------------------- S-BOUND / S-REMAINDER
     rc = prog.coroutine_of(prog.method("Socket", "recv"))
     g = cfg(rc)
-    buf = None
-    for l, (tix, name, _u) in enumerate(rc.locals):
-        if name == "buf":
-            buf = l
-    ctx.require(buf is not None, "Socket::recv: local `buf` not found")
+    # the accumulation buffer: the Vec<u8> local that the Ok(..) result carries (whatever it is called)
+    cands = set()
+    for bb, st in K.aggregates(rc, "core::result::Result", "Ok"):
+        for o in st[2][2]:
+            r = ndl_root(rc, o)
+            if r is not None and rc.local_tystr(r).startswith("alloc::vec::Vec<u8"):
+                cands.add(r)
+    ctx.require(len(cands) == 1, "Socket::recv: the result buffer (Vec<u8> returned in Ok) is not a single local (%d candidates)" % len(cands))
+    buf = cands.pop()
     exts = []
     for bb, t in K.calls(rc):
         c = F.callee(t)
